@@ -1,12 +1,11 @@
-\* quick tier, device already initialised (both metadata copies durable); expected: no violation
-\* run: tlc -workers 8 -deadlock -noGenerateSpecTE -config MCWriteBehind_quick_warm.cfg MCWriteBehind.tla   (inside /verif/spec, private -metadir)
+\* the CLEAR write forgets its slot (S2-C03): with torn journal slots (Tears >= 1) CrashSafe must fail
 CONSTANTS
   DS = 16  DE = 19
   NK = 2  MaxGen = 2  MaxTs = 2  Sizes = {1, 2}  JMax = 1  MaxFlush = 2
   RetireAny = TRUE  GhostTails = TRUE  Tears = 2
   FreshStart = FALSE  InitSync = TRUE
   SyncIntent = TRUE  SyncData = TRUE  SyncClear = TRUE
-  JournalAll = TRUE  SuccTest = TRUE  SyncMarkers = TRUE  ClearSlot = TRUE
+  JournalAll = TRUE  SuccTest = TRUE  SyncMarkers = TRUE  ClearSlot = FALSE
 SPECIFICATION Spec
 INVARIANTS TypeOK CrashSafe Partition ExactAtQuiescence AckMeansDurable JournalClearAtAck LayoutAtAck MetaMatches
 CHECK_DEADLOCK FALSE
